@@ -157,23 +157,23 @@ func signK(d *big.Int, hash []byte, k *big.Int) (r, s *big.Int, ok bool) {
 
 // signature body shapes (the bytes before the hash-type byte)
 const (
-	SigGood        = iota // strict DER, low S
-	SigHighS              // strict DER, S > N/2 (the twin N-S of a good signature: still verifies)
-	SigPadR               // R with an unnecessary leading zero byte
-	SigPadS               // S with an unnecessary leading zero byte
-	SigNegR               // R has its top bit set and no padding byte
-	SigNegS               // S has its top bit set and no padding byte
-	SigBadLen             // total-length byte one too large
-	SigTrailing           // one byte of trailing garbage after S, lengths unchanged
-	SigTrailingIn         // trailing garbage counted in the total length
-	SigBadSeqTag          // 0x31 instead of 0x30
-	SigBadIntTag          // R tagged 0x03
-	SigZeroLenR           // R of length 0
-	SigTooLong            // 73 bytes (R padded with zeros)
-	SigTooShort           // 7 bytes
-	SigMinimal            // 3006020101020101: strict DER, R = S = 1 (never verifies)
-	SigHalfS              // strict DER with S exactly half the group order (the low-S boundary; does not verify)
-	SigHalfSPlus1         // strict DER with S = half the group order + 1
+	SigGood       = iota // strict DER, low S
+	SigHighS             // strict DER, S > N/2 (the twin N-S of a good signature: still verifies)
+	SigPadR              // R with an unnecessary leading zero byte
+	SigPadS              // S with an unnecessary leading zero byte
+	SigNegR              // R has its top bit set and no padding byte
+	SigNegS              // S has its top bit set and no padding byte
+	SigBadLen            // total-length byte one too large
+	SigTrailing          // one byte of trailing garbage after S, lengths unchanged
+	SigTrailingIn        // trailing garbage counted in the total length
+	SigBadSeqTag         // 0x31 instead of 0x30
+	SigBadIntTag         // R tagged 0x03
+	SigZeroLenR          // R of length 0
+	SigTooLong           // 73 bytes (R padded with zeros)
+	SigTooShort          // 7 bytes
+	SigMinimal           // 3006020101020101: strict DER, R = S = 1 (never verifies)
+	SigHalfS             // strict DER with S exactly half the group order (the low-S boundary; does not verify)
+	SigHalfSPlus1        // strict DER with S = half the group order + 1
 	NumSigShapes
 )
 
@@ -652,31 +652,6 @@ const (
 	ClsFalse = "false"
 	ClsError = "error"
 )
-
-// PredictCheckSig: the class OP_CHECKSIG must produce for (pk, full signature) when the correct
-// digest for the signature's hash type is hash (nil: not computable), per the flag table.
-func PredictCheckSig(flags uint32, pk, full []byte, hashOf func(ht byte) []byte) string {
-	flags = Norm(flags)
-	if len(full) == 0 {
-		return ClsFalse
-	}
-	if SigEncodingError(flags, full) || PubKeyEncodingError(flags, pk) {
-		return ClsError
-	}
-	body, ht := full[:len(full)-1], full[len(full)-1]
-	der := flags&(FStrictEnc|FDERSig) != 0
-	ok := false
-	if h := hashOf(ht); h != nil {
-		ok = Verify(pk, h, body, der)
-	}
-	if !ok && flags&FNullFail != 0 { // BIP146: a failing check with a non-empty signature
-		return ClsError
-	}
-	if ok {
-		return ClsTrue
-	}
-	return ClsFalse
-}
 
 // MonotoneMatch: is there a strictly increasing assignment of signatures to keys with every pair
 // verifying? (dynamic programme, not the greedy loop)
